@@ -25,6 +25,7 @@ ASSUMPTIONS = [
     "the call-site disciplines (accept only while can_accept, check_limits before incr; untrack_all then decr on close; cluster_ip_at_limit before track_cluster_ip) are replicated by the driver from Server::{ready,create_sessions,shut_down_sessions_by_frontend_tokens}, ProxySession::close and Router::connect; that every exit path of a real session runs them is checked black-box (thorough tier), not proved",
     "the accept queue, eviction and the zombie check (C16/QModel.v) are private to Server: their model is tied to the code by the translator (the statements it mirrors) and exercised by the black-box storms with / without evict_on_queue_full and the zombie-check configurations, not by an in-process correspondence; select_nth_unstable's choice among equally old entries is left open (the theorems do not depend on it)",
     "the nesting of the two private maps (cluster -> ip -> count, token -> cluster -> ips) is flattened in the model; their sizes are compared through the cfg(sozu_verif) footprint accessor",
+    "local metrics drain: only gauges are modelled (Gauge / GaugeAdd through the real Aggregator::receive_metric, label filter by detail level, clear, remove_cluster tombstone, add_cluster, remove_backend, the cluster switch); counts, time histograms and the network drain are not; a clamped underflow is observed through the cfg(sozu_verif) counter next to the error! line (a negative first emission is clamped without being counted, as in the code)",
 ]
 TRUSTED = ["poule::Pool hands out a buffer iff used < capacity (modelled, compared on every pool case)", "translator props/c16.py:translate reads from lib/src/server.rs (comments and assertions stripped, functions by name, constants resolved, either operand order, one-level private helpers / let bindings followed) the check_limits comparison, the numbers of the accept gate 10 + 2*max / 10 reserved, the decr re-enable expression and the saturating untrack; and the accept-queue / eviction / zombie statements mirrored by QModel.v (free local names); every pin is hard: found-but-different and not-found both fail the check"]
 
@@ -419,7 +420,7 @@ LEVEL_TEXT = ("Machine-checked proof (Coq 8.16) over an executable model of Sess
               "load drops (any max_connections >= 1, any number of listeners), every accepted connection is queued, served or "
               "dropped exactly once, eviction takes the least recently active sessions and releases exactly their resources, "
               "the zombie check reclaims exactly the sessions idle beyond the interval, pooled buffers in use equal the checkouts held within capacity and "
-              "maximum and a checkout is refused only when the pool is exhausted; tied to lib/src/server.rs on every run by a constant translator and a "
+              "maximum and a checkout is refused only when the pool is exhausted, a gauge of the local metrics drain driven by paired updates is exact and an underflow stores 0 and is counted, a removed cluster's metric rows stay gone; tied to lib/src/server.rs on every run by a constant translator and a "
               "differential correspondence run of the real SessionManager against the extracted model with the property's "
               "own oracle; thorough tier adds a black-box worker run comparing gauges with the idle baseline.")
 LEVEL_NOTE = ("Trusted: Coq kernel; extraction + ocaml/driver.ml for the correspondence only; the call-site disciplines are "
